@@ -1,3 +1,4 @@
+import Ebu.Spec.Flow
 import Ebu.Props.C03
 import Ebu.Proofs.SaveConc
 import Ebu.Generated.Consts
@@ -84,5 +85,13 @@ per-subscription save mutex (fix c3a4d4d) the saved offset is monotone under con
 theorem bus_offset_serialised : Ebu.Locks.CallbacksOk Ebu.Generated.callbackFacts = true ∧
     Ebu.Locks.Discipline Ebu.Generated.accessFacts = true :=
   ⟨Ebu.Props.C03.facts_callbacks_lock_free, Ebu.Props.C03.facts_discipline⟩
+
+/-! ### obligations on the control flow of the CURRENT source (`Ebu/Generated/Flow.lean`, regenerated from /repo on every run) -/
+
+/-- OBLIGATION: `SubscribeWithReplay`: LoadOffset, then Replay, then – only after it has finished – the live registration; in the replay callback: upcast, select by name, decode, handler, THEN SaveOffset -/
+theorem flow_resume_shape : Ebu.Flow.resumeShape = true := by decide +kernel
+
+/-- OBLIGATION: the live handler: handler first, then inside one `saveMu` critical section read `bus.lastOffset` under `storeMu` and save it, unless nothing was persisted yet -/
+theorem flow_resume_live_shape : Ebu.Flow.resumeLiveShape = true := by decide +kernel
 
 end Ebu.Props.C12
